@@ -29,9 +29,9 @@ EXPLANATION = (
     'one local or remote path, each consumer lists its producer in parent_ids, and the submitted script contains '
     'each command byte-identical except that every reference became ${BATCH_TMPDIR}<shlex.quote(path)>. '
     'Bounded: quick N=3 (1 read/job, all variants) and a small N=4 space (file/group outputs, externals on, base '
-    'variant); thorough N=3 with every output kind and read kind (external output free on the last job), N=3 with '
+    'variant); thorough N=3 with every output kind and read kind (external output free on the last two jobs), N=3 with '
     'externals free on every job, N=3 with a second read (fan-in) on the last job, N=4 with file/group outputs and '
-    'variants base/reverse/id-shift; variants and defect kinds are explored on a reduced space (other outputs '
+    'all variants; variants and defect kinds are explored on a reduced space (other outputs '
     'file/group, externals on).'
 )
 SRC = {
@@ -73,11 +73,11 @@ def _configs(tier):
                      nfix=['o_0', 'o_1'])], 170
     return [
         dict(common, tag='N3', N=3, variants=allv, out_kinds=[0, 1, 2, 3, 4, 5, 6],
-             in_reads1=['inA', 'inB', 'ig', 'igm'], x_free_jobs=[2], nfix=['o_0', 'o_1']),
+             in_reads1=['inA', 'inB', 'ig', 'igm'], x_free_jobs=[1, 2], nfix=['o_0', 'o_1']),
         dict(common, tag='N3x', N=3, variants=[0], out_kinds=[1, 2, 3, 4], in_reads1=['inA', 'ig'], nfix=['o_0', 'o_1']),
         dict(common, tag='N3fanin', N=3, variants=[0], out_kinds=[1, 3], in_reads1=['inA'], two_reads_jobs=[2],
              nfix=['o_0', 'o_1']),
-        dict(common, tag='N4', N=4, variants=[0, 1, 5], out_kinds=[1, 3, 5, 6], in_reads1=['inA'], x_free_jobs=[2, 3],
+        dict(common, tag='N4', N=4, variants=allv, out_kinds=[1, 3, 5, 6], in_reads1=['inA'], x_free_jobs=[1, 2, 3],
              nfix=['o_0', 'o_1']),
     ], 1300
 
